@@ -3,6 +3,7 @@
 -/
 import MicroHttp.ConnSpec
 import MicroHttp.Server
+import MicroHttp.Proofs.Restart
 namespace MicroHttp.C11
 open MicroHttp
 variable {RL H : Type}
@@ -16,7 +17,7 @@ def ParserEq (c₁ c₂ : Conn RL H) : Prop :=
     connection equals that of a newly created connection with the same limit. -/
 theorem reset_after_error (P : Params RL H) (c : Conn RL H) (inp : Recv) (c' : Conn RL H) (e : ReqErr)
     (h : tryRead P c inp = (c', .parseErr e)) : ParserEq c' (Conn.new c.limit) := by
-  sorry
+  exact reset_after_error' P c inp c' e h
 
 /-- What a read does depends only on the parser part: two connections (in states allowed by the
     connection invariant, i.e. any reachable states — C03) that agree on it report the
@@ -28,7 +29,8 @@ theorem read_depends_on_parser_only (P : Params RL H) (hP : P.WF) (c₁ c₂ : C
     ParserEq (tryRead P c₁ inp).1 (tryRead P c₂ inp).1 ∧
     ∃ dp dq, (tryRead P c₁ inp).1.parsed = c₁.parsed ++ dp ∧ (tryRead P c₂ inp).1.parsed = c₂.parsed ++ dp ∧
              (tryRead P c₁ inp).1.respQ = c₁.respQ ++ dq ∧ (tryRead P c₂ inp).1.respQ = c₂.respQ ++ dq := by
-  sorry
+  have _ := hP; have _ := hI₁; have _ := hI₂  -- (not needed: the parse functions never inspect the output side)
+  exact read_depends_on_parser_only' P c₁ c₂ h inp
 
 /-- run a list of reads, collecting outcomes -/
 def runReads (P : Params RL H) : Conn RL H → List Recv → Conn RL H × List ReadOut
@@ -50,12 +52,19 @@ theorem after_error_like_new (P : Params RL H) (hP : P.WF) (c : Conn RL H) (hI :
              (runReads P (Conn.new c.limit : Conn RL H) inputs).1.parsed = dp ∧
              (runReads P c' inputs).1.respQ = c'.respQ ++ dq ∧
              (runReads P (Conn.new c.limit : Conn RL H) inputs).1.respQ = dq := by
-  sorry
+  have _ := hP; have _ := hI  -- (not needed: the parse functions never inspect the output side)
+  have heq : ∀ (is : List Recv) (c : Conn RL H), runReads P c is = runReads' P c is := by
+    intro is
+    induction is with
+    | nil => intro c; rfl
+    | cons i is ih => intro c; simp only [runReads, runReads', ih]
+  simp only [heq]
+  exact after_error_like_new' P c inp c' e h inputs
 
 /-- The request that was being parsed when the error was raised is gone. -/
 theorem rejected_request_dropped (P : Params RL H) (c : Conn RL H) (inp : Recv) (c' : Conn RL H) (e : ReqErr)
     (h : tryRead P c inp = (c', .parseErr e)) : c'.pending = none ∧ c'.win = [] ∧ c'.bodyVec = [] := by
-  sorry
+  exact rejected_request_dropped' P c inp c' e h
 
 /-- Server: a read that ends in a parse error yields nothing to the application (requests parsed
     earlier in the same read are discarded with the 400), leaves no parsed request behind, and the
@@ -64,6 +73,6 @@ theorem server_yields_nothing_on_error (c : Client) (rd : Recv) (t : List Byte) 
     (h : (tryRead P0 c.conn rd).2 = .parseErr e) :
     (c.read rd t).2.1 = [] ∧ (c.read rd t).1.conn.parsed = [] ∧ (c.read rd t).1.state = .awaitingOut ∧
     ParserEq (c.read rd t).1.conn (Conn.new c.conn.limit) := by
-  sorry
+  exact server_yields_nothing_on_error' c rd t e h
 
 end MicroHttp.C11
